@@ -68,7 +68,7 @@ CLAIMED = {
     "C08": (
         "Coq proof by structural induction over the model of FormatConstraintTransformer and its error-message builder + correspondence on all small expressions x assignments x message modes",
         "Props/C08.v: the fulfilled flag equals the Boolean value of the tree for every expression and assignment; absent/empty counts as fulfilled; under the proviso the result carries a message iff unfulfilled "
-        "(invariant preserved by the three builders); the base evaluator's default message; C08_format_constraint_evaluation discharges the environment hypotheses for the dict-based evaluator model, i.e. it is a statement about format_constraint_evaluation itself. Grouping by precedence is C01.",
+        "(invariant preserved by the three builders); the base evaluator's default message; C08_format_constraint_evaluation discharges the environment hypotheses for the dict-based evaluator model, i.e. it is a statement about format_constraint_evaluation itself. Grouping by precedence is C01. The message builder is additionally executed by the translator on symbolic messages and the rows proved equal to fc_compose for all texts (C08_message_builder_is_the_regenerated_table); format_constraint_evaluation is proved to refine the sequential model under every schedule.",
         "Trusted: Coq kernel; the hand-written model of the transformer/f-string builders (validated by correspondence: messages compared as text).",
         "DESIGN.md section 5 C08",
     ),
@@ -76,7 +76,7 @@ CLAIMED = {
         "Coq theorems: print/scan round trip for the AHB scanner model, indicator normalisation over callbacks regenerated from source, selection of the first fulfilled part + correspondence (scanner vs Lark, evaluation vs ahbicht) and split/selection oracle",
         "Props/C09.v: C09_split (any number of modal-mark parts in any ASCII case spelling, condition texts over the CONDITION_EXPRESSION alphabet, optional trailing bare mark, scan into exactly these parts in order), "
         "C09_split_prefix_operator, C09_split_bare, C09_split_sound (conversely, whatever the scanner accepts is the concatenation of the parts it returns, in written order); C09_normalise (every case variant of the six indicators maps to its canonical indicator: the obligation the original lower-case prefix-operator defect breaks); "
-        "C09_select / C09_selected_part_is_reported / C09_bare_indicator. Lark's behaviour on the AHB grammar is tied to the scanner model by correspondence on every run.",
+        "C09_select / C09_selected_part_is_reported / C09_bare_indicator. Lark's behaviour on the AHB grammar is tied to the scanner model by correspondence on every run. The selection loop is additionally executed by the translator on all lists of 1-4 parts and compared with `select` (C09_selection_loop_is_the_regenerated_table, bounded domain).",
         "Trusted: Coq kernel, translators (Gen_enums, Gen_ahbgrammar incl. character data computed with Python's re), hand models of the scanner and of AhbExpressionTransformer (validated by correspondence).",
         "DESIGN.md section 5 C09",
     ),
@@ -86,7 +86,7 @@ CLAIMED = {
         "(documented mapping) combined with the parent's; table facts (below optional nothing required, below required own status kept, FILLED/EMPTY suffix, UNKNOWN under MUSS/prefix aborts, "
         "the mapping never hits an unbound local) over map_rvv/combine_rvv regenerated from validation.py. For every tree, every evaluation of node expressions, both flags. "
         "C13_every_schedule_yields_the_sequential_report: the validation recursion written as task trees (Model/ValidateAsync.v: every asyncio.gather a Par, parsing/evaluating a node's expression arbitrary suspending programs) returns under EVERY "
-        "schedule the report of the sequential model, so the statements above (and C14/C16/C17) hold for all interleavings; every schedule terminates.",
+        "schedule the report of the sequential model, so the statements above (and C14/C16/C17) hold for all interleavings; every schedule terminates. The status step (get_segment_level_requirement_validation_value, validate_data_element_freetext) is additionally executed by the translator for every indicator x outcome x parent status x flag x input and the 960 rows proved equal to the model (C13_status_step_is_the_regenerated_table).",
         "Trusted: Coq kernel, translator (Gen_valmaps, validated on the whole finite domain every run), hand model of validate_* (validated by correspondence; oracle: documented mapping on every indicator spelling x outcome x flag, positional reading of "
         "the report incl. repeated discriminators). The task-tree model of asyncio.gather / contextvars is that of C12 (modelled, tied by the C12/C15 correspondences); when several tasks raise, the leftmost exception is taken (I-C12).",
         "DESIGN.md section 5 C13",
@@ -108,7 +108,7 @@ CLAIMED = {
     "C17": (
         "Coq proof about the value-pool function of the validation model + correspondence on random pools x inputs x parent statuses",
         "Props/C17.v: for a non-forbidden segment and pairwise different qualifiers the offered values are exactly the admissible entries in pool order (single-entry pools offer their entry); the judgement of the "
-        "input by the offered values (accepted / flagged and empty with hint / empty); nothing offered or forbidden segment -> forbidden.",
+        "input by the offered values (accepted / flagged and empty with hint / empty); nothing offered or forbidden segment -> forbidden. validate_data_element_valuepool is additionally executed by the translator on every pool of 0-3 entries x inputs x segment statuses and the 1071 rows (status, flag, hint text, offered values) proved equal to the model (C17_value_pool_validation_is_the_regenerated_table).",
         "Trusted: as C13; dict semantics of possible_values modelled as an insertion-ordered association list.",
         "DESIGN.md section 5 C17",
     ),
